@@ -4,7 +4,9 @@
    terminated (no NoFuel), stayed inside every buffer it touched (no Oob), met no undefined behaviour (no Ub) and
    returned v, where v is written with the textbook functions of lib/Str.v and C13_Text.v. *)
 From Coq Require Import NArith ZArith Bool List.
+From CppUVerif Require Import lib.CMem lib.CMemFacts gen.Gen_LoopC13.   (* before the model: its Ok/Oob/NoFuel are the unqualified ones below *)
 From CppUVerif Require Import lib.Str lib.CSem gen.Gen_LeafC13 C13_Text C13_Model C13_Proofs C13_Replace C13_Printable C13_Concat C13_Alloc C13_Atoi C13_Main C13_LeafTie.
+From CppUVerif Require Import C13_SrcTie C13_SrcTie2 C13_SrcTie3 C13_SrcTie4 C13_SrcSpec.
 Import ListNotations.
 Local Open Scope N_scope.
 
@@ -202,3 +204,123 @@ Theorem C13_leaf_functions_are_the_source : forall c, c < 256 ->
     leaf_ToLower (sc c) = sc (to_lower c).
 Proof. exact C13_LeafTie.C13_leaf_functions_are_the_source. Qed.
 Print Assumptions C13_leaf_functions_are_the_source.
+
+(* ------------------------------------------------------------------------------------------------------------------
+   The looping primitives of the model ARE the source: equal -- for every byte memory, every pointer and every sufficient
+   fuel, including the inputs on which the code leaves a block (both sides say Oob) -- to the functions that tools/cxx2gal.py
+   regenerates from clang's AST of SimpleString.cpp on every run (gen/Gen_LoopC13.v; memory model lib/CMem.v).
+   ------------------------------------------------------------------------------------------------------------------ *)
+Local Open Scope Z_scope.
+
+Theorem C13_src_StrLen_is_the_model : forall fuel m b o, mem_ok m -> (length (view m (Ptr b o)) < fuel)%nat ->
+  Z.of_nat (length (view m (Ptr b o))) < M64 ->
+  src_StrLen fuel m (Ptr b o) = lift Z.of_nat (StrLen (view m (Ptr b o))).
+Proof. exact src_StrLen_tie. Qed.
+Print Assumptions C13_src_StrLen_is_the_model.
+
+Theorem C13_src_StrCmp_is_the_model : forall fuel m b1 o1 b2 o2, mem_ok m -> (length (view m (Ptr b1 o1)) < fuel)%nat ->
+  src_StrCmp fuel m (Ptr b1 o1) (Ptr b2 o2) = lift (fun z => z) (StrCmp (view m (Ptr b1 o1)) (view m (Ptr b2 o2))).
+Proof. exact src_StrCmp_tie. Qed.
+Print Assumptions C13_src_StrCmp_is_the_model.
+
+Theorem C13_src_StrNCmp_is_the_model : forall fuel m b1 o1 b2 o2 n, mem_ok m -> 0 <= n < M64 ->
+  (length (view m (Ptr b1 o1)) < fuel)%nat ->
+  src_StrNCmp fuel m (Ptr b1 o1) (Ptr b2 o2) n =
+    lift (fun z => z) (StrNCmp (view m (Ptr b1 o1)) (view m (Ptr b2 o2)) (Z.to_nat n)).
+Proof. exact src_StrNCmp_tie. Qed.
+Print Assumptions C13_src_StrNCmp_is_the_model.
+
+Theorem C13_src_MemCmp_is_the_model : forall fuel m b1 o1 b2 o2 n, mem_ok m -> 0 <= n < M64 ->
+  (length (view m (Ptr b1 o1)) < fuel)%nat ->
+  src_MemCmp fuel m (Ptr b1 o1) (Ptr b2 o2) n =
+    lift (fun z => z) (MemCmp (view m (Ptr b1 o1)) (view m (Ptr b2 o2)) (Z.to_nat n)).
+Proof. exact src_MemCmp_tie. Qed.
+Print Assumptions C13_src_MemCmp_is_the_model.
+
+(* the model measures the needle before the loop, the source inside it: they differ only for an EMPTY haystack and a needle
+   without terminator (the model says Oob, the source returns NULL without reading the needle further) -- excluded here *)
+Theorem C13_src_StrStr_is_the_model : forall fuel m b1 o1 b2 o2, mem_ok m -> (length (view m (Ptr b1 o1)) < fuel)%nat ->
+  (length (view m (Ptr b2 o2)) < fuel)%nat -> Z.of_nat (length (view m (Ptr b2 o2))) < M64 ->
+  (forall r, view m (Ptr b1 o1) = 0%N :: r -> StrLen (view m (Ptr b2 o2)) = C13_Model.Oob -> view m (Ptr b2 o2) = []) ->
+  src_StrStr fuel m (Ptr b1 o1) (Ptr b2 o2) =
+    lift (fun r => match r with Some k => Ptr b1 (o1 + Z.of_nat k) | None => Null end)
+         (StrStr (view m (Ptr b1 o1)) (view m (Ptr b2 o2))).
+Proof. exact src_StrStr_tie. Qed.
+Print Assumptions C13_src_StrStr_is_the_model.
+
+Theorem C13_src_StrNCpy_is_the_model : forall fuel m bd od bs os n, mem_ok m -> bd <> bs -> (bd < length m)%nat -> 0 <= od ->
+  0 <= n < M64 -> (length (view m (Ptr bs os)) < fuel)%nat ->
+  src_StrNCpy fuel m (Ptr bd od) (Ptr bs os) n =
+    match StrNCpy (block m bd) (Z.to_nat od) (view m (Ptr bs os)) (Z.to_nat n) with
+    | C13_Model.Ok d' => FOk (Ptr bd od, upd m bd d') | _ => FOob end.
+Proof. exact src_StrNCpy_tie. Qed.
+Print Assumptions C13_src_StrNCpy_is_the_model.
+
+Theorem C13_src_AtoU_is_the_model : forall fuel m b o, mem_ok m -> (length (view m (Ptr b o)) < fuel)%nat ->
+  src_AtoU fuel m (Ptr b o) = lift (fun z => z) (AtoU (view m (Ptr b o))).
+Proof. exact src_AtoU_tie. Qed.
+Print Assumptions C13_src_AtoU_is_the_model.
+
+(* signed overflow is undefined behaviour in the source (the translation wraps, the model says Ub): excluded *)
+Theorem C13_src_AtoI_is_the_model : forall fuel m b o, mem_ok m -> (length (view m (Ptr b o)) < fuel)%nat ->
+  AtoI (view m (Ptr b o)) <> C13_Model.Ub ->
+  src_AtoI fuel m (Ptr b o) = lift (fun z => z) (AtoI (view m (Ptr b o))).
+Proof. exact src_AtoI_tie. Qed.
+Print Assumptions C13_src_AtoI_is_the_model.
+
+(* ------------------------------------------------------------------------------------------------------------------
+   ... hence the translated source has the textbook meaning on C strings, is memory safe and terminates (FOk = returned within
+   the fuel without any access outside the blocks of its arguments); a fuel just above the string length suffices.
+   ------------------------------------------------------------------------------------------------------------------ *)
+Theorem C13_src_StrLen_spec : forall fuel m b o s r, mem_ok m -> cstr_at m (Ptr b o) s r ->
+  (length (s ++ 0%N :: r) < fuel)%nat -> Z.of_nat (length (s ++ 0%N :: r)) < M64 ->
+  src_StrLen fuel m (Ptr b o) = FOk (Z.of_nat (length s)).
+Proof. exact src_StrLen_spec. Qed.
+Print Assumptions C13_src_StrLen_spec.
+
+Theorem C13_src_StrCmp_spec : forall fuel m b1 o1 b2 o2 a ra c rc, mem_ok m ->
+  cstr_at m (Ptr b1 o1) a ra -> cstr_at m (Ptr b2 o2) c rc -> (length (a ++ 0%N :: ra) < fuel)%nat ->
+  exists d, src_StrCmp fuel m (Ptr b1 o1) (Ptr b2 o2) = FOk d /\ Z.sgn d = cmp_z (str_cmp a c).
+Proof. exact src_StrCmp_spec. Qed.
+Print Assumptions C13_src_StrCmp_spec.
+
+Theorem C13_src_StrNCmp_spec : forall fuel m b1 o1 b2 o2 a ra c rc n, mem_ok m ->
+  cstr_at m (Ptr b1 o1) a ra -> cstr_at m (Ptr b2 o2) c rc -> 0 <= n < M64 -> (length (a ++ 0%N :: ra) < fuel)%nat ->
+  exists d, src_StrNCmp fuel m (Ptr b1 o1) (Ptr b2 o2) n = FOk d /\ Z.sgn d = cmp_z (t_ncmp (Z.to_nat n) a c).
+Proof. exact src_StrNCmp_spec. Qed.
+Print Assumptions C13_src_StrNCmp_spec.
+
+Theorem C13_src_MemCmp_spec : forall fuel m b1 o1 b2 o2 n, mem_ok m -> 0 <= n < M64 ->
+  (Z.to_nat n <= length (view m (Ptr b1 o1)))%nat -> (Z.to_nat n <= length (view m (Ptr b2 o2)))%nat ->
+  (length (view m (Ptr b1 o1)) < fuel)%nat ->
+  exists d, src_MemCmp fuel m (Ptr b1 o1) (Ptr b2 o2) n = FOk d /\
+            Z.sgn d = cmp_z (t_ncmp (Z.to_nat n) (view m (Ptr b1 o1)) (view m (Ptr b2 o2))).
+Proof. exact src_MemCmp_spec. Qed.
+Print Assumptions C13_src_MemCmp_spec.
+
+Theorem C13_src_StrStr_spec : forall fuel m b1 o1 b2 o2 a ra c rc, mem_ok m ->
+  cstr_at m (Ptr b1 o1) a ra -> cstr_at m (Ptr b2 o2) c rc ->
+  (length (a ++ 0%N :: ra) < fuel)%nat -> (length (c ++ 0%N :: rc) < fuel)%nat -> Z.of_nat (length (c ++ 0%N :: rc)) < M64 ->
+  src_StrStr fuel m (Ptr b1 o1) (Ptr b2 o2) =
+    FOk (match find_sub a c with Some k => Ptr b1 (o1 + Z.of_nat k) | None => Null end).
+Proof. exact src_StrStr_spec. Qed.
+Print Assumptions C13_src_StrStr_spec.
+
+Theorem C13_src_StrNCpy_spec : forall fuel m bd bs os n s r pre mid post, mem_ok m -> bd <> bs -> (bd < length m)%nat ->
+  1 <= n < M64 -> cstr_at m (Ptr bs os) s r -> block m bd = pre ++ mid ++ post ->
+  length mid = Nat.min (Z.to_nat n) (S (length s)) -> (length (s ++ 0%N :: r) < fuel)%nat ->
+  src_StrNCpy fuel m (Ptr bd (Z.of_nat (length pre))) (Ptr bs os) n =
+    FOk (Ptr bd (Z.of_nat (length pre)), upd m bd (pre ++ firstn (length mid) (s ++ [0%N]) ++ post)).
+Proof. exact src_StrNCpy_spec. Qed.
+Print Assumptions C13_src_StrNCpy_spec.
+
+Theorem C13_src_AtoU_spec : forall fuel m b o s r, mem_ok m -> view m (Ptr b o) = s ++ 0%N :: r -> BY s ->
+  (length (s ++ 0%N :: r) < fuel)%nat -> src_AtoU fuel m (Ptr b o) = FOk (t_atou s).
+Proof. exact src_AtoU_spec. Qed.
+Print Assumptions C13_src_AtoU_spec.
+
+Theorem C13_src_AtoI_spec : forall fuel m b o s r, mem_ok m -> view m (Ptr b o) = s ++ 0%N :: r -> BY s ->
+  t_dec_value (t_atoi_digits s) <= 2147483647 ->
+  (length (s ++ 0%N :: r) < fuel)%nat -> src_AtoI fuel m (Ptr b o) = FOk (t_atoi s).
+Proof. exact src_AtoI_spec. Qed.
+Print Assumptions C13_src_AtoI_spec.
